@@ -77,8 +77,7 @@ class Group:
             cmd += ["--harness", fq(h)]
         cmd += ["-j", str(self.jobs), "--output-format", "terse", "-Z", "unstable-options",
                 "--export-json", outjson, "--harness-timeout", "%ds" % cap]
-        if any(h.get("stubbing") for h in self.hs):
-            cmd += ["-Z", "stubbing"]
+        cmd += ["-Z", "stubbing"]
         if self.cbmc_args:
             cmd += ["--cbmc-args"] + self.cbmc_args
         n = len(self.hs)
@@ -173,27 +172,40 @@ def playback(scratch, h, profile, kf, log):
     write_kf(ov, kf)
     tdir = os.path.join(scratch, "target_pb")
     cmd = ["cargo", "kani", "--target-dir", tdir, "--exact", "--harness", fq(h), "-Z", "concrete-playback",
-           "--concrete-playback=inplace", "-Z", "unstable-options", "--harness-timeout", "%ds" % (h.get("cap", 300) * 2)]
-    if h.get("stubbing"):
-        cmd += ["-Z", "stubbing"]
+           "--concrete-playback=print", "-Z", "unstable-options", "--harness-timeout", "%ds" % (h.get("cap", 300) * 2)]
+    cmd += ["-Z", "stubbing"]
     if h.get("cbmc_args"):
         cmd += ["--cbmc-args"] + h["cbmc_args"]
-    run(cmd, ov, log, timeout=h.get("cap", 300) * 2 + 300, mem_gb=h.get("mem_gb", 10))
-    hfile = os.path.join(ov, "vh", overlay.HOOKS[h["mod"]][1])
-    src = open(hfile).read()
-    m = re.search(r"(?s)#\[test\]\s*fn (kani_concrete_playback_%s_\w+)\(\).*?\n}\n" % re.escape(h["name"]), src)
-    if not m:
+    glog = os.path.join(scratch, "pbgen_%s_%s.log" % (profile, h["name"]))
+    run(cmd, ov, glog, timeout=h.get("cap", 300) * 2 + 300, mem_gb=h.get("mem_gb", 10))
+    gout = open(glog, errors="replace").read()
+    # Kani prints one unit test per failed check AND per satisfied cover, each in a
+    # ```rust block; all of them are appended to the overlay copy of the harness file
+    # (module level, outside any macro) and run: the violation is reproduced when at
+    # least one of them fails natively.
+    blocks = re.findall(r"(?s)```[a-z]*[ \t]*\n(.*?)```", gout)
+    blocks = [b for b in blocks if "kani_concrete_playback_" in b]
+    seen, tests = set(), []
+    for b in blocks:
+        mm = re.search(r"fn (kani_concrete_playback_\w+)\(\)", b)
+        if mm and mm.group(1) not in seen:
+            seen.add(mm.group(1))
+            tests.append(b)
+    if not tests:
         return dict(reproduced=False, test=None, output="no playback test generated")
-    test_src, test_name = m.group(0), m.group(1)
+    test_src = "\n".join(tests)
+    test_name = "kani_concrete_playback_" + h["name"] + "_"
+    hfile = os.path.join(ov, "vh", overlay.HOOKS[h["mod"]][1])
+    with open(hfile, "a") as f:
+        f.write("\n" + test_src + "\n")
     plog = os.path.join(scratch, "pb_%s_%s.log" % (profile, h["name"]))
     # playback has no --target-dir; it builds into ov/target (removed with the scratch dir)
-    rc, to = run(["cargo", "kani", "playback", "-Z", "concrete-playback", "--", test_name, "--exact", "--nocapture"]
-                 if False else ["cargo", "kani", "playback", "-Z", "concrete-playback", "--", test_name],
+    rc, to = run(["cargo", "kani", "playback", "-Z", "concrete-playback", "--", test_name, "--test-threads", "1"],
                  ov, plog, timeout=600)
     out = open(plog, errors="replace").read()
-    ran = re.search(r"running 1 test", out) is not None
+    ran = re.search(r"running \d+ tests?", out) is not None
     failed = re.search(r"test result: FAILED", out) is not None
-    passed = re.search(r"test result: ok\. 1 passed", out) is not None
+    passed = re.search(r"test result: ok\. \d+ passed", out) is not None
     panic = re.findall(r"panicked at ([^\n]*\n[^\n]*)", out)
     shutil.rmtree(ov, ignore_errors=True)
     return dict(reproduced=bool(ran and failed), native_passed=bool(passed), test=test_src,
